@@ -52,6 +52,8 @@ ASSUMPTIONS = [
     'field asks for more digits than the type has) + one binary ulp ("within the accuracy of decimal conversion")',
     'in a ^^^^ field one position before the point is kept for the sign unless the field has a sign position or a $ '
     '(manual / GW-BASIC corpus): with a place for the sign a number always fits, so % is not accepted there',
+    'a ^^^^ field shows a non-zero number with as many digits before the point as it has positions there (less the one '
+    'kept for the sign): the exponent is adjusted to fill the field (manual; holds for every field x value of the thorough tier)',
     'exponent letter E or D both accepted; a negative value shown as zero may or may not carry its sign',
     'scientific notation with no digit at all (zero, or a field with at most one position before the point and no '
     'decimals, e.g. "#^^^^") is what GW-BASIC prints (tests/basic/gwbasic/PRINT_USING_scientific); accepted',
